@@ -383,7 +383,16 @@ func dominatesD(a, b ssa.Instruction, d int) bool {
 		if a.Block() == b.Block() {
 			return IndexIn(a) < IndexIn(b)
 		}
-		return a.Block().Dominates(b.Block())
+		if a.Block().Dominates(b.Block()) {
+			return true
+		}
+		// not a dominator of the flow graph – but maybe of its feasible paths: `if c {a}; …; if c {b}` (the same SSA value
+		// tested twice) or a helper whose result decides the way. Decided by the path search.
+		if d > 0 || !reachesBlock(a.Block(), b.Block()) {
+			return false
+		}
+		q := &PathQuery{Fn: fa, Stop: func(in ssa.Instruction) bool { return in == a }, Target: func(in ssa.Instruction) bool { return in == b }}
+		return q.Find() == nil && reachableInRegion(fa, b)
 	}
 	if d > absorbDepth {
 		return false
@@ -463,4 +472,22 @@ func FuncValueUses(anon *ssa.Function) []ssa.Instruction {
 		}
 	})
 	return out
+}
+
+func reachesBlock(from, to *ssa.BasicBlock) bool {
+	seen := map[*ssa.BasicBlock]bool{}
+	stack := []*ssa.BasicBlock{from}
+	for len(stack) > 0 {
+		b := stack[len(stack)-1]
+		stack = stack[:len(stack)-1]
+		if b == to {
+			return true
+		}
+		if seen[b] {
+			continue
+		}
+		seen[b] = true
+		stack = append(stack, b.Succs...)
+	}
+	return false
 }
